@@ -42,7 +42,7 @@ Extend(op) ==
 Next == \/ \E i \in Idx(Firsts) : Start(i)
         \/ Extend("select") \/ Extend("derive") \/ Extend("filter") \/ Extend("sort")
         \/ Extend("take") \/ Extend("aggregate") \/ Extend("group") \/ Extend("window")
-        \/ Extend("join") \/ Extend("append") \/ Extend("exclude") \/ Extend("bad")
+        \/ Extend("join") \/ Extend("append") \/ Extend("exclude") \/ Extend("loop") \/ Extend("bad")
 
 Spec == Init /\ [][Next]_vars
 
